@@ -1051,6 +1051,7 @@ func (fr *Frame) runSites(ins ssa.Instruction, when string, pc string, st *State
 			}
 		case *ssa.Send:
 			env.vars["value"] = tv{t: fr.v1(x.X), ty: x.X.Type()}
+			env.vars["channel"] = tv{t: fr.v1(x.Chan), ty: x.Chan.Type()}
 		case *ssa.Return:
 			fr.bindReturnValues(env, x)
 		}
